@@ -7,7 +7,8 @@ from .. import gen, putcheck, run, snap, spec, trashgen, trashio, trashworld, wo
 
 ID = 'C20'
 FMT = '%Y-%m-%dT%H:%M:%S'
-TKINDS = ['home', 'home-own-volume', 'top', 'alt', 'alt-root', 'trash-dir']
+TKINDS = ['home', 'home-own-volume', 'top', 'alt', 'alt-root', 'trash-dir',
+          'trash-dir-link']
 
 
 def config(tier):
@@ -104,7 +105,8 @@ def gen_text(rng, tkind, index):
 
 def gen_case(rng, index, tier):
     tkind = rng.choice(TKINDS)
-    vols = ['v1'] if tkind in ('top', 'alt') or rng.random() < 0.3 else []
+    vols = ['v1'] if tkind in ('top', 'alt', 'trash-dir-link') or \
+        rng.random() < 0.3 else []
     L = gen.make_layout(rng, volumes=vols,
                         home_own_volume=(tkind == 'home-own-volume'),
                         xdg='unset', top_states={'v1': 'sticky', '': 'sticky'}
@@ -123,6 +125,13 @@ def gen_case(rng, index, tier):
     elif tkind == 'alt-root':
         tdir = '.Trash-%d' % uid
         vol = ''
+    elif tkind == 'trash-dir-link':
+        # the trash dir is named through a symlink that crosses a mount point:
+        # every command must take the volume of the path AS GIVEN
+        tdir = 'v1/real-trash' if rng.random() < 0.5 else 'custom/real-trash'
+        link_at = 'lnk-trash' if tdir.startswith('v1/') else 'v1/lnk-trash'
+        L.add({'p': link_at, 't': 'l', 'to': '@/' + tdir})
+        vol = '' if tdir.startswith('v1/') else 'v1'
     else:
         tdir = (vols[0] + '/' if vols and rng.random() < 0.5 else '') + 'custom/trash'
         vol = vols[0] if tdir.startswith('v1/') else ''
@@ -141,6 +150,7 @@ def gen_case(rng, index, tier):
     case = L.desc()
     case['tkind'] = tkind
     case['tdir'] = tdir
+    case['tdir_arg'] = link_at if tkind == 'trash-dir-link' else tdir
     case['vol'] = vol
     case['pclass'] = pclass
     case['tclass'] = tclass
@@ -149,7 +159,9 @@ def gen_case(rng, index, tier):
 
 
 def topt(case, w):
-    return ['--trash-dir', w.abs(case['tdir'])] if case['tkind'] == 'trash-dir' else []
+    if case['tkind'] in ('trash-dir', 'trash-dir-link'):
+        return ['--trash-dir', w.abs(case.get('tdir_arg') or case['tdir'])]
+    return []
 
 
 def run_case(case):
@@ -263,7 +275,7 @@ def run_case(case):
         out['sample_obs'] = {'readings': readings}
         return out
     # ---------------- reading 3: trash-rm on the exact path
-    if case['tkind'] != 'trash-dir':
+    if case['tkind'] not in ('trash-dir', 'trash-dir-link'):
         abs_listed = L_raw['path']
         with world.World(case) as w:
             p = abs_listed.replace('@R', w.R, 1)
